@@ -21,18 +21,47 @@ MAX16 = 32767
 
 
 class NodeRef:
-    __slots__ = ('n',)
+    """the node an abstract board stands on; after a join of paths that stand on different nodes (the engine's root
+    abort path returns without unmaking the move) it is a guarded choice, resolved under the path condition when used"""
+    __slots__ = ('n', 'alts')
 
-    def __init__(self, n):
+    def __init__(self, n, alts=None):
         self.n = n
+        self.alts = alts          # [(cond, n)] or None
 
     def __repr__(self):
-        return 'Node(%d)' % self.n
+        return 'Node(%s)' % (self.n if self.alts is None else self.alts)
+
+    def cases(self):
+        return self.alts if self.alts is not None else [(True, self.n)]
 
     def ite_with(self, g, o):
-        if self.n == o.n:
+        if self.alts is None and o.alts is None and self.n == o.n:
             return self
-        raise Unsupported('merging abstract boards standing at different nodes (%d / %d)' % (self.n, o.n))
+        ng = b_not(g)
+        return NodeRef(None, [(b_and(g, c), n) for c, n in self.cases()] + [(b_and(ng, c), n) for c, n in o.cases()])
+
+    def resolve(self, ex, guard):
+        if self.alts is None:
+            return self.n
+        byn = {}
+        for c, n in self.alts:
+            byn[n] = b_or(byn.get(n, False), c)
+        if len(byn) == 1:
+            return next(iter(byn))
+        s = z3.Solver()
+        s.set('timeout', 20000)
+        for p in ex.pre:
+            s.add(p)
+        s.add(zb(guard))
+        live = []
+        for n, c in byn.items():
+            r = s.check(zb(c))
+            if r != z3.unsat:
+                live.append(n)
+        if len(live) == 1:
+            return live[0]
+        raise Unsupported('abstract board stands on several possible nodes %s under the current path condition' % live)
 
 
 class MapV:
@@ -119,6 +148,16 @@ def install(ex, game, env):
     """env: dict with options: 'cache' (True/False), 'stop' (None | 'any'), 'clock' ('free')"""
     G = game
     TT = 'board::transposition_table::TRANSPOSITION_TABLE'
+
+    def board_key(st):
+        # paths that leave a function with the search board on different nodes (the root's abort path returns without
+        # unmaking its move) are kept apart instead of merged
+        out = []
+        for k, v in st.store.items():
+            if k[0] == 'H' and isinstance(v, tuple) and len(v) == 5 and isinstance(v[1], tuple) and len(v[1]) == 7 and isinstance(v[1][1], NodeRef):
+                out.append((k, v[1][1].n if v[1][1].alts is None else -1))
+        return tuple(sorted(out))
+    ex.exit_split = board_key
     ex.static_values[TT] = MapV({})
     env.setdefault('events', [])
     env.setdefault('inserts', [])
@@ -127,7 +166,13 @@ def install(ex, game, env):
 
     def node_of(ctx, bp):
         b = ctx.deref(bp)
-        return b[1].n
+        if isinstance(b[1], Poison):
+            raise Unsupported('abstract board was merged across incompatible paths: %s' % b[1].msg)
+        n = b[1].resolve(ctx.ex, ctx.st.guard)
+        if b[1].alts is not None:
+            # write the resolved board back so that the choice is not re-decided at every use
+            ctx.write(bp, G.board_value(n))
+        return n
 
     def get_all_moves(ctx, bp):
         nid = node_of(ctx, bp)
@@ -241,7 +286,7 @@ def install(ex, game, env):
         if not isinstance(k, CI):
             raise Unsupported('symbolic transposition-table key')
         env['inserts'].append({'key': k.v, 'entry': entry, 'guard': ctx.st.guard, 'where': ctx.where,
-                               'aborted_below': env.get('abort_flag_reader', lambda st: False)(ctx.st)})
+                               'aborted_below': ctx.st.store.get(('G', 'aborted_below'), False)})
         d = dict(m.d)
         old = d.get(k.v)
         d[k.v] = (True, entry)
@@ -294,7 +339,7 @@ def install(ex, game, env):
     ex.model(r'^std::time::Duration::as_millis$', lambda ctx, d: (ctx.deref(d) if isinstance(d, Ptr) else d)[1])
 
     def log(ctx, selfp, msg):
-        env['events'].append(('log', ctx.st.guard, msg))
+        env['events'].append(('log', ctx.st.guard, msg, ctx.where))
         return UNIT
     ex.model(r'^<search::Search as logger::Logger>::log::<.*>$', log)
     ex.model(r'^<search::Search as logger::Logger>::elog::<.*>$', log)
